@@ -48,6 +48,10 @@ const EFFECTS: &[Effect] = &[
     Effect { name: "sample_continuous", perm: "random", expr: "floor(sample(normal_distribution(0.0, 1.0), 2)[0])", double: Double::Rng },
     Effect { name: "sequence_sample", perm: "random", expr: "[1, 2, 3].sample(1)[0]", double: Double::Rng },
     Effect { name: "sequence_sample_counts", perm: "random", expr: "[1, 2, 3].sample(1, [1, 2, 1])[0]", double: Double::Rng },
+    Effect { name: "sequence_sample_sparse", perm: "random", expr: "range(100).sample(1)[0]", double: Double::Rng },
+    Effect { name: "sequence_sample_lazy_source", perm: "random", expr: "range(1000).map((x: int) -> { x + 1 }).sample(2)[0]", double: Double::Rng },
+    Effect { name: "shuffle_large", perm: "random", expr: "range(60).shuffle()[0]", double: Double::Rng },
+    Effect { name: "random_choices_large", perm: "random", expr: "range(100).random_choices(2)[0]", double: Double::Rng },
     Effect { name: "shuffle", perm: "random", expr: "[1, 2, 3].shuffle()[0]", double: Double::Rng },
     Effect { name: "random_choices", perm: "random", expr: "[1, 2, 3].random_choices(2)[0]", double: Double::Rng },
     Effect { name: "random_choices_weighted", perm: "random", expr: "[1, 2, 3].random_choices(2, [1.0, 2.0, 1.0])[0]", double: Double::Rng },
@@ -181,10 +185,10 @@ impl Property for C11 {
         "C11"
     }
     fn rule(&self) -> String {
-        "enumerated: ALL 64 on/off assignments of the six permissions (a value equal to the documented default alternately left unset or set explicitly) x 18 effect expressions (display, debug, now, random, distribution random/sample, sequence sample/shuffle/random_choices incl. weighted, regex, sleep incl. the library wrappers written in the language) x 15 paths (direct, user wrapper, closure, lazy map, forced map, generator filter, reduce, sort comparator, function stored in a struct field, under if_error / is_error, default of an inner lambda, selected branch, top-level value, default parameter of a top-level function), with recording doubles for writer, clock and random source. random: programs nesting 1-3 paths around an effect under random 3-state assignments. Oracle: permission off => PermissionError(id) and zero touches of the corresponding double (RNG creation included); on => no permission violation for that id and the double touched. Non-trivial = the effect is reached through at least one level of indirection or the permission is in its default (unset) state.".into()
+        "enumerated: ALL 64 on/off assignments of the six permissions (a value equal to the documented default alternately left unset or set explicitly) x 22 effect expressions (display, debug, now, random, distribution random/sample, sequence sample/shuffle/random_choices incl. weighted, regex, sleep incl. the library wrappers written in the language) x 15 paths (direct, user wrapper, closure, lazy map, forced map, generator filter, reduce, sort comparator, function stored in a struct field, under if_error / is_error, default of an inner lambda, selected branch, top-level value, default parameter of a top-level function), with recording doubles for writer, clock and random source. random: programs nesting 1-3 paths around an effect under random 3-state assignments. Oracle: permission off => PermissionError(id) and zero touches of the corresponding double (RNG creation included); on => no permission violation for that id and the double touched. Non-trivial = the effect is reached through at least one level of indirection or the permission is in its default (unset) state.".into()
     }
     fn exhaustive_part(&self) -> Option<String> {
-        Some("64 permission assignments x 18 effects x 15 paths enumerated completely".into())
+        Some("64 permission assignments x 22 effects x 15 paths enumerated completely".into())
     }
     fn families(&self, tier: Tier) -> Vec<Family> {
         let k = if tier == Tier::Quick { 1 } else { 20 };
